@@ -23,6 +23,8 @@ CXX_mpi   := $(CXX_GNU)
 CXX_vs    := $(CXX_GNU)
 CXX_tsan  := $(CXX_CLANG)
 CXX_rmpi  := mpicxx
+CXX_cov   := $(CXX_GNU)
+CXX_covmpi := $(CXX_GNU)
 
 FLAGS_plain := -O1 -g0
 FLAGS_asan  := -O1 -g1 -fsanitize=address,undefined -fno-sanitize=nonnull-attribute,null -fno-sanitize-recover=all -fno-omit-frame-pointer -DVERIF_ASAN
@@ -31,6 +33,9 @@ FLAGS_mpi   := -O1 -g0 -DVERIF_WITH_MPI -I$(ROOT)/engine/minimpi
 FLAGS_vs    := -O1 -g0 -DVERIF_VSCHED
 FLAGS_tsan  := -O1 -g1 -fsanitize=thread -DVERIF_TSAN
 FLAGS_rmpi  := -O1 -g0 -DVERIF_WITH_MPI -DVERIF_REAL_MPI
+# coverage audit builds (tools_cov.py): not registered as checks
+FLAGS_cov   := -O1 -g0 --coverage -DVERIF_COV
+FLAGS_covmpi := -O1 -g0 --coverage -DVERIF_COV -DVERIF_WITH_MPI -I$(ROOT)/engine/minimpi
 
 LIBS_plain :=
 LIBS_asan  := -fsanitize=address,undefined
@@ -39,6 +44,8 @@ LIBS_mpi   := $(B)/mpi/e/minimpi.o $(B)/mpi/e/vsched.o $(B)/mpi/e/vsched_pthread
 LIBS_vs    := $(B)/vs/e/vsched.o $(B)/vs/e/vsched_pthread.o
 LIBS_tsan  := -fsanitize=thread
 LIBS_rmpi  :=
+LIBS_cov   := --coverage
+LIBS_covmpi := $(B)/covmpi/e/minimpi.o $(B)/covmpi/e/vsched.o $(B)/covmpi/e/vsched_pthread.o --coverage
 
 KSRC := kernel/adjacency/coloring.cpp kernel/adjacency/graph.cpp kernel/adjacency/cuthill_mckee.cpp \
         kernel/adjacency/permutation.cpp kernel/util/memory_pool.cpp kernel/util/property_map.cpp \
@@ -51,7 +58,7 @@ KSRC := kernel/adjacency/coloring.cpp kernel/adjacency/graph.cpp kernel/adjacenc
         kernel/geometry/test_aux/standard_tria.cpp kernel/geometry/test_aux/tetris_hexa.cpp \
         kernel/geometry/test_aux/tetris_quad.cpp kernel/geometry/test_aux/validate_structured_meshes.cpp
 
-VARIANTS := plain asan omp mpi vs tsan rmpi
+VARIANTS := plain asan omp mpi vs tsan rmpi cov covmpi
 
 .SECONDARY:
 .PHONY: cfg all clean
